@@ -330,13 +330,15 @@ void ThreadPool::resizeLocked(ssize_t sn) {
   for (size_t i = 0; i < rings_.size(); ++i) {
     OnceFunction task;
     while (rings_[i].try_pop(task)) {
-      task();
+      // executeNext, not a bare call: these tasks were counted in workRemaining_ when they were
+      // submitted and must be uncounted when they run, or the pool keeps believing it is loaded.
+      executeNext(std::move(task));
     }
   }
   for (size_t i = 0; i < stealRings_.size(); ++i) {
     OnceFunction task;
     while (stealRings_[i].try_pop(task)) {
-      task();
+      executeNext(std::move(task));
     }
   }
 
